@@ -48,6 +48,7 @@ fn main() {
         "c15" => c15::run(&args),
         "c16" => c16::run(&args),
         "c16stress" => c16::stress_cmd(&args),
+        "c16unit" => c16::unit_cmd(&args),
         "c17" => c17::run(&args),
         "c18" => c18::run(&args),
         "c19" => c19::run(&args),
